@@ -52,8 +52,10 @@ struct Cont
     explicit Cont(int id) : id(id) {}
     Cont(const Cont& o) : v(), id(o.id), moved_from(o.moved_from) { copies()++; if constexpr (std::is_copy_constructible_v<T>) v = o.v; }
     Cont(Cont&& o) noexcept : v(std::move(o.v)), id(o.id), moved_from(o.moved_from) { o.moved_from = true; }
-    void push_back(const T& x) { if constexpr (std::is_copy_constructible_v<T>) v.push_back(x); }
-    void emplace_back(T&& x) { v.emplace_back(std::move(x)); }
+    int pb_calls = 0, eb_calls = 0;      // README: push_back "calls push_back on" the list, emplace_back "works similarly" (calls emplace_back: direct-initialisation, explicit constructors count)
+    void push_back(const T& x) { ++pb_calls; if constexpr (std::is_copy_constructible_v<T>) v.push_back(x); }
+    void push_back(T&& x) { ++pb_calls; v.push_back(std::move(x)); }
+    void emplace_back(T&& x) { ++eb_calls; v.emplace_back(std::move(x)); }
 };
 
 // argument categories: 0 all rvalue (what the parser does), 1 all lvalue, 2 all const lvalue, 3 target rvalue / others lvalue, 4 target lvalue / others rvalue
@@ -198,12 +200,24 @@ void back_one(Run& r, std::index_sequence<I...>)
             if (Cont<T>::copies() != 0) r.fail(Run::where((std::string(kind) + " copied the container").c_str(), K, C, A, Cat));
             if (cont.v.size() != before + 1 || cont.v.back().id != want) r.fail(Run::where((std::string(kind) + " did not append the A-th argument to the C-th").c_str(), K, C, A, Cat));
             if (Emplace && cnt().copies) r.fail(Run::where("emplace_back copied the element", K, C, A, Cat));
+            if (Emplace && !(cont.eb_calls == 1 && cont.pb_calls == 0)) r.fail(Run::where("emplace_back did not call emplace_back on the container (it used push_back: only implicit conversions to the element type)", K, C, A, Cat));
+            if (!Emplace && !(cont.pb_calls == 1 && cont.eb_calls == 0)) r.fail(Run::where("push_back did not call push_back on the container", K, C, A, Cat));
             if (!others_untouched(args, r.ids, A - 1, C - 1)) r.fail(Run::where((std::string(kind) + " touched another argument").c_str(), K, C, A, Cat));
             if (!Emplace && (args[A - 1].moved_from)) r.fail(Run::where("push_back moved from its (const&) element argument", K, C, A, Cat));
         }
     }
 }
 // ---- val / create -------------------------------------------------------------------------------------
+// "a default value of the given type" is T{}: for types without a default constructor of their own (scalars, pointers, plain aggregates) that is the zero value.
+// In a constant expression a default-initialised (indeterminate) result cannot be read, so a create<T> that does not value-initialise fails to compile here
+// (build failure of this engine = violation, control e_values).
+struct PlainAgg { int a; long b; unsigned char c[3]; double d; };
+static_assert(ctpg::ftors::create<int>{}() == 0 && ctpg::ftors::create<int>{}(1, 2.5, "x") == 0, "create<int> must return int{}");
+static_assert(ctpg::ftors::create<const char*>{}(7) == nullptr, "create<T*> must return nullptr");
+static_assert(ctpg::ftors::create<PlainAgg>{}(1, 2).b == 0 && ctpg::ftors::create<PlainAgg>{}().c[2] == 0, "create<aggregate> must return a zeroed aggregate");
+__attribute__((noinline)) inline void scribble_stack(unsigned char fill) { volatile unsigned char junk[4096]; for (size_t i = 0; i < sizeof(junk); ++i) junk[i] = fill; }
+template<class T, class... A> __attribute__((noinline)) T call_create(A&&... a) { return ctpg::ftors::create<T>{}(std::forward<A>(a)...); }
+
 template<size_t K, int Cat, size_t... I>
 void val_create_one(Run& r, std::index_sequence<I...>)
 {
@@ -217,6 +231,12 @@ void val_create_one(Run& r, std::index_sequence<I...>)
     struct D { int x = 17; std::string s = "d"; };
     auto d = ctpg::ftors::create<D>{}(pass<Cat, false>(args[I])...);
     if (d.x != 17 || d.s != "d") r.fail(Run::where("create<T> did not return a default T", K, 0, 0, Cat));
+    {   // scalar / plain aggregate results over a scribbled stack (run time twin of the static_asserts above)
+        scribble_stack(0xAB); long sc = call_create<long>(pass<Cat, false>(args[I])...);
+        scribble_stack(0xCD); PlainAgg ag = call_create<PlainAgg>(pass<Cat, false>(args[I])...);
+        scribble_stack(0xEF); void* pv = call_create<void*>(pass<Cat, false>(args[I])...);
+        if (sc != 0 || ag.a != 0 || ag.b != 0 || ag.c[0] != 0 || ag.c[2] != 0 || ag.d != 0.0 || pv != nullptr) r.fail(Run::where("create<T> did not return T{} for a scalar / pointer / plain aggregate T", K, 0, 0, Cat));
+    }
     if (!others_untouched(args, r.ids, size_t(-1))) r.fail(Run::where("create touched an argument", K, 0, 0, Cat));
     // zero arguments are legal as well (empty rules)
     if constexpr (K == 1) { if (ctpg::ftors::val(int(v))() != v) r.fail("val(v)() != v"); if (ctpg::ftors::create<D>{}().x != 17) r.fail("create<T>() is not a default T"); }
